@@ -136,6 +136,10 @@ def stage_record(ctx):
             for idx, expected in sorted(mism.items()):
                 rec = json.loads(lines[idx - 1])
                 ctx.failures.append(dict(source="trace", **{"in": rec["in"], "obs": rec["obs"], "exp": expected}))
+            if len(ctx.accepted_records) < 400:
+                for i, ln in enumerate(lines[:400]):
+                    if (i + 1) not in mism and (i + 1) not in skips:
+                        ctx.accepted_records.append(json.loads(ln))
             if not ctx.trace_sampled and lines:
                 ctx.samples.append(dict(kind="recorded run (impl -> spec)", **json.loads(lines[0])))
                 ctx.trace_sampled = True
@@ -146,23 +150,35 @@ def stage_record(ctx):
 
 
 def stage_selftest(ctx):
+    """Binding demonstration that does not depend on the code under test being right:
+    records that TLC ACCEPTED in the trace stage are corrupted (one field changed, see
+    Prop::corrupt in the harness) and validated again; every one of them must now be
+    rejected.  If the corrupted trace were accepted, the trace specification would be
+    vacuous: tool error."""
     cfg = ctx.cfg
     if "selftest" not in cfg or "trace" not in cfg:
         return
     n = cfg["selftest"][ctx.tier]
+    good = ctx.accepted_records[:n]
+    if not good:
+        log("self-test skipped: no accepted record to corrupt")
+        return
+    src = os.path.join(ctx.wd, "selftest.in.ndjson")
+    with open(src, "w") as f:
+        for r in good:
+            f.write(json.dumps(r) + "\n")
     tf = os.path.join(ctx.wd, "selftest.ndjson")
-    rc, out, dt = lib.run([lib.VH, "selftest", ctx.pid, str(ctx.seed + 1), str(n), ctx.tier, tf], timeout=1800, env=ctx.env)
+    rc, out, dt = lib.run([lib.VH, "corrupt", ctx.pid, src, tf], timeout=600, env=dict(ctx.env, VH_JOBS="1"))
     if rc != 0:
-        raise ToolError("vh selftest failed rc=%s\n%s" % (rc, out[-3000:]))
+        raise ToolError("vh corrupt failed rc=%s\n%s" % (rc, out[-3000:]))
     save = (ctx.states, ctx.transitions)
     nrec, mism, skips = validate_trace(ctx, tf, ctx.pid + ".self")
     ctx.states, ctx.transitions = save
     accepted = nrec - len(skips) - len(mism)
-    ctx.selftest = dict(corrupted_records=nrec - len(skips), rejected=len(mism))
-    if nrec - len(skips) == 0:
-        raise ToolError("self-test produced no in-domain corrupted records")
-    # A corruption can coincide with another allowed behaviour only if the spec is
-    # nondeterministic there; the per-property corruptions are chosen so that it cannot.
+    ctx.selftest = dict(corrupted_records=nrec, rejected=len(mism))
+    if nrec == 0:
+        log("self-test skipped: nothing corruptible")
+        return
     if accepted > 0:
         raise ToolError("self-test: %d corrupted records were ACCEPTED by the trace specification - the binding is vacuous" % accepted)
     log("self-test: %d corrupted records, all rejected" % len(mism))
@@ -221,9 +237,10 @@ def check(pid, tier, seed):
     ctx.states = ctx.transitions = ctx.replayed = ctx.validated = ctx.skipped = 0
     ctx.failures, ctx.samples, ctx.mc_runs = [], [], []
     ctx.trace_sampled = False
+    ctx.accepted_records = []
     ctx.selftest = None
     ctx.extra = {}
-    ctx.env = {"VH_BIN_DIR": lib.BIN_DIR, "VH_TIER": tier}
+    ctx.env = {"VH_BIN_DIR": lib.BIN_DIR, "VH_TIER": tier, "VH_JOBS": str(ctx.cfg.get("jobs", 8))}
     lib.build()
     ctx.wd = lib.workdir(pid + ".run")
     try:
@@ -232,8 +249,14 @@ def check(pid, tier, seed):
         stage_record(ctx)
         for extra in ctx.cfg.get("extra", []):
             getattr(P, extra)(ctx)
-        stage_selftest(ctx)
         nviol, known = classify(ctx)
+        selftest_error = None
+        try:
+            stage_selftest(ctx)
+        except ToolError as e:
+            if nviol == 0:
+                raise
+            selftest_error = str(e)
     finally:
         import shutil
         shutil.rmtree(ctx.wd, ignore_errors=True)
